@@ -1077,9 +1077,54 @@ func (m *Machine) index(x Value, idx *Term, it types.Type) Value {
 }
 
 func (m *Machine) selectTerm(ts []*Term, idx *Term) *Term {
+	st := m.st
+	// constant tables: compress runs where table[i] - i is constant (e.g. "0123456789ABCDEF" is two
+	// runs) into ite(idx in run, idx + delta, ...): far smaller than one ite per element
+	allConst := true
+	for _, t := range ts {
+		if t.op != OpConst {
+			allConst = false
+			break
+		}
+	}
+	if allConst && len(ts) > 2 {
+		w := ts[0].w
+		var ix *Term
+		switch {
+		case idx.w == w:
+			ix = idx
+		case idx.w > w:
+			ix = st.Trunc(idx, w)
+		default:
+			ix = st.ZExt(idx, w)
+		}
+		type run struct {
+			lo, hi int
+			delta  uint64
+		}
+		var runs []run
+		for i := 0; i < len(ts); {
+			d := (ts[i].k - uint64(i)) & mask(w)
+			j := i
+			for j+1 < len(ts) && (ts[j+1].k-uint64(j+1))&mask(w) == d {
+				j++
+			}
+			runs = append(runs, run{i, j, d})
+			i = j + 1
+		}
+		if len(runs) <= len(ts)/2 {
+			last := runs[len(runs)-1]
+			res := st.Bin(OpAdd, ix, st.Const(w, last.delta))
+			for r := len(runs) - 2; r >= 0; r-- {
+				cond := st.Bin(OpULe, idx, st.Const(idx.w, uint64(runs[r].hi)))
+				res = st.Ite(cond, st.Bin(OpAdd, ix, st.Const(w, runs[r].delta)), res)
+			}
+			return res
+		}
+	}
 	res := ts[len(ts)-1]
 	for i := len(ts) - 2; i >= 0; i-- {
-		res = m.st.Ite(m.st.Eq(idx, m.st.Const(idx.w, uint64(i))), ts[i], res)
+		res = st.Ite(st.Eq(idx, st.Const(idx.w, uint64(i))), ts[i], res)
 	}
 	return res
 }
